@@ -321,6 +321,9 @@ func blockOnListChangeWorker(
 		ctx.l.Tracef("waiting for %s to get a list item until %s", keyNameStr(), end.Format(time.StampMilli))
 	}
 
+	ctx.cs.beginBlockingCommand()
+	defer ctx.cs.endBlockingCommand()
+
 	verifPoint("before-register", ctx.cs)
 	ws := blockFn()
 	defer func() { ctx.dsc.ds.leaveListBlock(ws, keyNames) }()
@@ -348,6 +351,14 @@ func blockOnListChangeWorker(
 			// a close request that arrived before the capture could not unblock anything: do not
 			// start waiting on a connection that is being closed
 			if ctx.cs.client.IsCloseRequested() {
+				return true
+			}
+
+			// an unblock request that arrived before the capture ends the command as well
+			if reason := ctx.cs.takeEarlyUnblock(); reason != nil {
+				if reason.isError {
+					output.data = respErrorString(reason.reason)
+				}
 				return true
 			}
 
